@@ -4,7 +4,10 @@
 (* walks the boundaries between the lexical items of a module and chooses  *)
 (* at each one a separator from                                            *)
 (*   0 nothing (where legal, else a blank)  1 blank  2 tab  3 CR LF  4 LF  *)
-(*   5 line comment  6 block comment  7 nested block comment.              *)
+(*   5 line comment  6 block comment  7 nested block comment               *)
+(*   8 a run of 70 000 blanks  9 a block comment of 70 000 characters      *)
+(* (8 and 9 at most W times per plan: they push what follows on the line   *)
+(* beyond column 65 535, where a narrow column counter would wrap).        *)
 (* A behaviour of depth D is a layout plan; TLC's simulation mode draws    *)
 (* plans (seeded), the harness applies each to every module of the corpus  *)
 (* and requires the token sequence and the parsed model to be unchanged    *)
@@ -12,12 +15,14 @@
 (***************************************************************************)
 EXTENDS Integers, Sequences, TLC, Json
 
-CONSTANT D
+CONSTANTS D, W
 
-VARIABLES k, plan
-Init == k = 0 /\ plan = <<>>
-Next == k < D /\ k' = k + 1 /\ \E ch \in 0..7 : plan' = Append(plan, ch)
-Spec == Init /\ [][Next]_<<k, plan>>
+VARIABLES k, plan, wide
+Init == k = 0 /\ plan = <<>> /\ wide = 0
+Next == /\ k < D /\ k' = k + 1
+        /\ \/ \E ch \in 0..7 : plan' = Append(plan, ch) /\ wide' = wide
+           \/ wide < W /\ \E ch \in 8..9 : plan' = Append(plan, ch) /\ wide' = wide + 1
+Spec == Init /\ [][Next]_<<k, plan, wide>>
 
 Emit == k = D => PrintT(<<"REPLAY", ToJson([plan |-> plan])>>)
 =============================================================================
